@@ -1,6 +1,7 @@
 import NemoVerif.Drive.Common
 import NemoVerif.Models.Serialize
 import NemoVerif.Models.CleanUp
+import NemoVerif.Models.SerializeRefs
 
 /-
   Line protocol of C11 (Python twin: harness/impl/c11pv.py).
@@ -144,8 +145,35 @@ def flowToJson (f : Flow) : Json :=
   Json.mkObj [("uid", .str f.uid), ("children", Json.arr (f.children.map Json.str).toArray),
     ("heads", Json.arr (f.heads.map fun h => Json.mkObj [("uid", .str h.uid), ("n_scores", Json.num (JsonNumber.fromNat h.scores.length))]).toArray)]
 
+partial def labOfJson (j : Json) : Except String Refs.Lab :=
+  match j with
+  | .num _ => pure (.leaf 0)
+  | _ =>
+    if let .ok v := j.getObjVal? "q" then do
+      let a ← v.getArr?; pure (.seq (← a.toList.mapM labOfJson))
+    else if let .ok v := j.getObjVal? "n" then do
+      let a ← v.getArr?
+      if h : a.size = 3 then do
+        let kids ← (← a[2].getArr?).toList.mapM labOfJson
+        pure (.node (← a[0].getNat?) (← a[1].getNat?) kids)
+      else throw "bad n"
+    else throw "bad lab"
+
+partial def encToJson : Refs.Enc → Json
+  | .leaf _ => Json.num 0
+  | .seq ys => Json.mkObj [("q", Json.arr (ys.map encToJson).toArray)]
+  | .defn i _ ys => Json.mkObj [("def", Json.arr #[Json.num (JsonNumber.fromNat i), Json.arr (ys.map encToJson).toArray])]
+  | .ref i => Json.mkObj [("ref", Json.num (JsonNumber.fromNat i))]
+
 def handle (op : String) (j : Json) : Except String Json := do
   match op with
+  | "refs" =>
+    let t ← labOfJson (← j.getObjVal? "t")
+    let r := Refs.encodeS [] t
+    let back := match Refs.decodeS [] r.1 with
+      | some _ => true
+      | none => false
+    pure (Json.mkObj [("enc", encToJson r.1), ("decodes", .bool back)])
   | "ser" =>
     let v ← pvOfJson (← j.getObjVal? "v")
     let enc := match encode v with
